@@ -11,34 +11,34 @@ import (
 
 // GenCfg is the per-run (swarm) configuration drawn from the run's seed.
 type GenCfg struct {
-	NP, NS, NE int
-	Steps      int
-	W          map[string]int // operation weights (0 = switched off)
-	AliasP     float64        // probability that an operand reuses an already chosen slot
-	PZeroRecv  float64        // probability of zeroing a point slot before using it as receiver
-	PMisuse    float64
-	PRejectLen float64
-	PRejectSem float64
-	PScribble  float64
-	PProbe     float64
-	PImport    float64 // probability of the export/scale/import macro
-	ScalarFlav []int   // weights of scalar flavours
-	Enum       string  // "", "alias", "misuse", "reject": enumeration appended after the random prefix
-	EnumDraws  int
-	MaxLimbBias bool   // C09: bias towards carry-free chains
+	NP, NS, NE  int
+	Steps       int
+	W           map[string]int // operation weights (0 = switched off)
+	AliasP      float64        // probability that an operand reuses an already chosen slot
+	PZeroRecv   float64        // probability of zeroing a point slot before using it as receiver
+	PMisuse     float64
+	PRejectLen  float64
+	PRejectSem  float64
+	PScribble   float64
+	PProbe      float64
+	PImport     float64 // probability of the export/scale/import macro
+	ScalarFlav  []int   // weights of scalar flavours
+	Enum        string  // "", "alias", "misuse", "reject": enumeration appended after the random prefix
+	EnumDraws   int
+	MaxLimbBias bool // C09: bias towards carry-free chains
 }
 
 // Gen produces the calls of a run from the PRNG and the current world.
 type Gen struct {
-	rng   *prng.Rand
-	r     *Run
-	cfg   *GenCfg
-	queue []Call
-	emitted int
+	rng       *prng.Rand
+	r         *Run
+	cfg       *GenCfg
+	queue     []Call
+	emitted   int
 	setupDone bool
 	enumDone  bool
-	ops   []*OpDesc
-	wts   []int
+	ops       []*OpDesc
+	wts       []int
 }
 
 // ---- constants computed with the reference model ----
